@@ -546,3 +546,37 @@ pub fn random_cuts(rng: &mut Rng, n: usize, nseg: usize) -> Vec<usize> {
     cuts.dedup();
     cuts
 }
+
+// ---------------------------------------------------------------------------------------------
+// panics inside a search (possibly on a thread of the search pool, where the harness' panic hook
+// cannot attribute a location): caught here, keyed on the message
+
+pub const PANIC_PREFIX: &str = "PANIC: ";
+
+/// runs a search; a panic is returned as Err("PANIC: <message>")
+pub fn catch_search<T>(f: impl FnOnce() -> T) -> Result<T, String> {
+    match std::panic::catch_unwind(std::panic::AssertUnwindSafe(f)) {
+        Ok(v) => Ok(v),
+        Err(p) => {
+            let msg = if let Some(s) = p.downcast_ref::<&str>() {
+                s.to_string()
+            } else if let Some(s) = p.downcast_ref::<String>() {
+                s.clone()
+            } else {
+                "<non-string panic>".to_string()
+            };
+            Err(format!("{PANIC_PREFIX}{msg}"))
+        }
+    }
+}
+
+/// stable signature of a caught panic: message with digits squashed
+pub fn panic_sig(p: &str) -> String {
+    let msg = p.strip_prefix(PANIC_PREFIX).unwrap_or(p);
+    let mut m: String = msg.chars().map(|c| if c.is_ascii_digit() { '#' } else { c }).collect();
+    while m.contains("##") {
+        m = m.replace("##", "#");
+    }
+    let m: String = m.chars().take(90).collect();
+    format!("panic-in-search:{m}")
+}
